@@ -468,6 +468,63 @@ sys.exit(1 if bad else 0)
 """
 
 
+def dataframe_obligations(rep):
+    """output='dataframe': from the AST of the real getBH_level2 — the index columns are the Cartesian product
+    (source, path, sensor, pixel) in this order (itertools.product = row-major) and the value columns are `B.reshape(-1, 3)`; together with the
+    proved shape (L, M, S, K, 3) of B (checks/l2sym.py) the rows carry the same values in the documented order"""
+    import ast
+    import inspect
+    import textwrap
+
+    import magpylib._src.fields.field_wrap_BH as FW
+
+    fails = []
+    d = describe(FW.getBH_level2)
+    fnl = d["function"]
+    tree = ast.parse(textwrap.dedent(inspect.getsource(FW.getBH_level2)))
+    ifs = [n for n in ast.walk(tree) if isinstance(n, ast.If) and ast.unparse(n.test).replace(" ", "") in ("output=='dataframe'", 'output=="dataframe"')]
+    if len(ifs) != 1:
+        rep.obligation("getBH_level2.dataframe-branch.located", {"status": "unknown", "backend": "ast", "time_s": 0, "reason": f"{len(ifs)} candidate branches"}, fnl)
+        return fails
+    br = ifs[0]
+    prods = [n for n in ast.walk(br) if isinstance(n, ast.Call) and getattr(n.func, "id", getattr(n.func, "attr", "")) == "product"]
+    cols = [ast.literal_eval(k.value) for n in ast.walk(br) if isinstance(n, ast.Call) and getattr(n.func, "attr", "") == "DataFrame" for k in n.keywords if k.arg == "columns"]
+    ok_prod = len(prods) == 1 and len(prods[0].args) == 4
+    order = [ast.unparse(a) for a in prods[0].args] if ok_prod else []
+
+    def kind(e):
+        e = e.replace(" ", "")
+        if e == "src_ids":
+            return "source"
+        if e == "range(max_path_len)":
+            return "path"
+        if e == "sens_ids":
+            return "sensor"
+        if e == "range(num_of_pixels)":
+            return "pixel"
+        return e
+
+    got = [kind(e) for e in order]
+    names = ["source", "path", "sensor", "pixel"]
+    recognised = sorted(got) == sorted(names) and len(cols) == 1 and sorted(cols[0]) == sorted(names)
+    ok1 = recognised and got == names and cols == [names]
+    st1 = _st(ok1, "ast") if recognised else {"status": "unknown", "backend": "ast", "time_s": 0, "reason": f"index construction not recognised: product{order}, columns {cols}"}
+    rep.obligation("getBH_level2.dataframe.index-is-product(source,path,sensor,pixel)-in-this-order-with-matching-column-names", st1, fnl, sample={"product_args": order, "columns": cols})
+    if recognised and not ok1:
+        fails.append(dict(name="getBH_level2.dataframe.order", why=f"index product {got}, columns {cols}"))
+    vals = [ast.unparse(n.value).replace(" ", "") for n in ast.walk(br) if isinstance(n, ast.Assign) and any(isinstance(t, ast.Subscript) and ast.unparse(t.value) == "df" for t in n.targets)]
+    ok2 = vals == ["B.reshape(-1,3)"]
+    rep.obligation("getBH_level2.dataframe.values=B.reshape(-1,3)(row-major-over-the-proved-shape-(L,M,S,K,3))",
+                   _st(True, "ast") if ok2 else {"status": "unknown", "backend": "ast", "time_s": 0, "reason": f"value columns assigned from {vals}: not the recognised form"}, fnl)
+    # the definitions of the four index ranges
+    src = ast.unparse(br)
+    ok3 = "src_ids = [s.style.label if s.style.label else f'{s}' for s in sources]" in src and "sens_ids = [s.style.label if s.style.label else f'{s}' for s in sensors]" in src \
+        and "num_of_pixels = np.prod(pix_shapes[0][:-1]) if pixel_agg is None else 1" in src
+    rep.obligation("getBH_level2.dataframe.index-ranges-are-the-sources,the-path-length,the-sensors,the-pixel-count(1-when-aggregated)",
+                   _st(True, "ast") if ok3 else {"status": "unknown", "backend": "ast", "time_s": 0, "reason": "definitions of the index ranges not in the recognised form"}, fnl)
+    return fails
+
+
 def main(tier, seed):
     rep = Report(PID, tier, seed, "proof")
     rep.assumed_contract("getBH_level2 (object-oriented evaluation) is the canonical computation; its own correctness is C03-C06")
@@ -476,7 +533,7 @@ def main(tier, seed):
     from checks import c07_dict
     from engine.par import run_parallel
 
-    fails = rank_table(rep) + call_equivalence(rep)
+    fails = rank_table(rep) + call_equivalence(rep) + dataframe_obligations(rep)
     fails += run_parallel(rep, [("dict-tiling", lambda r: c07_dict.run(r, tier))])
     runs, bad = native_functional(seed, tier)
     rep.standin("functional interface == object-oriented evaluation (numeric)", "every class x every subset of per-instance parameters x n in {1,3,4} (thorough: 1..4) x single/multiple observers",
@@ -504,5 +561,5 @@ def main(tier, seed):
     # level-2 evaluation for all path lengths and pixel counts (checks/l2sym.py): documented source / path / sensor / pixel order and shape of the output
     from checks import l2sym
 
-    l2sym.report_fails(rep, l2sym.run(rep, tier, fams=["B'", 'B', 'A'], stride={'A': 4, 'B': 4}))
+    l2sym.report_fails(rep, l2sym.run(rep, tier, fams=["B'", 'B', 'A'], stride={'A': 4, 'B': 4}, kinds=("element", "shape", "agg", "safety")))
     return rep.finish()
